@@ -67,6 +67,10 @@ def judge(ck, res, blobs, ctx, cls, format="fasta", known_recs=None, rerun_fasta
     ck.count("runs_%s" % cls)
     rc = res.proc.rc
     ck.count("exit_%s" % ("signal" if res.proc.signal else rc))
+    if (res.proc.cpu_limited or res.proc.timed_out) and sum(len(b) for b in blobs) > 30000:
+        # a CPU-limit hit is only a verdict ("does not terminate") for small inputs; large mutated inputs can legitimately take minutes
+        ck.count("unjudged_cpu_limit_on_large_input")
+        return
     if ck.proc_violations(res.proc, ctx):
         return
     if rc == 0:
@@ -83,14 +87,26 @@ def judge(ck, res, blobs, ctx, cls, format="fasta", known_recs=None, rerun_fasta
                 ck.violation("exit0-invalid-alignment:%s" % cls, errs[0], ctx)
                 return
         else:
-            bad = structural_check(res.out_bytes, blobs, format)
-            if bad and bad[0] == "output-unparsable" and format in ("msf", "clu") and rerun_fasta is not None:
-                # MSF/Clustal cannot carry empty names or names with blanks; for arbitrary bytes the names are whatever the
-                # reader made of them, so judge the block formats only when the names kalign derived fit the formats
-                rows = rerun_fasta()
-                if rows is None or any((not n) or (n != n.strip()) or any(c.isspace() for c in n) or len(n) > 250 for n, _ in rows):
-                    ck.count("unjudged_block_format_with_names_outside_the_formats")
-                    bad = None
+            bad = None
+            if format in ("msf", "clu") and rerun_fasta is not None:
+                # MSF/Clustal cannot carry empty names or names with blanks; for arbitrary bytes the names are whatever the reader made
+                # of them. Judge the alignment through a FASTA-format run of the same input, and the block file only when the names fit.
+                fa_bytes = rerun_fasta()
+                if fa_bytes is None:
+                    bad = ("format-dependent-exit-status", "the same input succeeds with -f %s but fails with FASTA output" % format)
+                else:
+                    bad = structural_check(fa_bytes, blobs, "fasta")
+                    if not bad:
+                        rows_fa = fmt.parse_fasta(fa_bytes)
+                        fit = all(n and n == n.strip() and not any(c.isspace() for c in n) and len(n) <= 250 and not n.startswith(("//", ">")) for n, _ in rows_fa)
+                        if fit:
+                            bad = structural_check(res.out_bytes, blobs, format)
+                            if not bad and kal.parse_output(res.out_bytes, format) != rows_fa:
+                                bad = ("block-format-differs-from-fasta", "rows of the %s output differ from the FASTA output of the same input" % format)
+                        else:
+                            ck.count("unjudged_block_format_with_names_outside_the_formats")
+            else:
+                bad = structural_check(res.out_bytes, blobs, format)
             if bad:
                 ck.violation("exit0-invalid-alignment:%s" % bad[0], "exit status 0 but %s" % bad[1], ctx)
                 return
@@ -161,7 +177,7 @@ def mutate_bytes(rng, data):
             b[i:i] = bytes(rng.randrange(256) for _ in range(rng.choice([1, 4, 64])))
         elif op == "long_line":
             i = rng.randrange(len(b) + 1)
-            b[i:i] = rng.choice([b"A", b"ACGT", b"x", b"-", b">"]) * rng.choice([600, 5000, 70000])
+            b[i:i] = rng.choice([b"A", b"ACGT", b"x", b"-", b">"]) * rng.choice([600, 5000, 20000])
         elif op == "replace_letter":
             tgt = rng.choice(b"XJOUZBNxjou*")
             for _ in range(rng.choice([1, 5, 30])):
@@ -174,7 +190,9 @@ def near_valid(rng):
     kind = rng.choice(["fasta", "msf", "clu"])
     n = rng.choice([0, 1, 2, 3, 5, 520])
     alpha = rng.choice([gen.DNA, gen.AA, "ACGTX", "ACGU", "N", "X", gen.AA + "BZXJOU", "acgt"])
-    seqs = [gen.rand_seq(rng, rng.choice([0, 1, 5, 60, 511, 512, 513]), alpha) for _ in range(n)]
+    # many records only with short sequences: 520 x 512 residues costs minutes under the sanitizers without being a hang
+    lens = [0, 1, 5, 60, 511, 512, 513] if n < 100 else [0, 1, 5, 60]
+    seqs = [gen.rand_seq(rng, rng.choice(lens), alpha) for _ in range(n)]
     names = [rng.choice(["s%d" % i, "", "x" * 255, "x" * 256, "x" * 300, "a b c", "Name:", ">", "-", "s%d" % (i % 2)]) for i in range(n)]
     recs = list(zip(names, seqs))
     if kind == "fasta":
@@ -345,10 +363,7 @@ def run_files(ck, paths, label, blobs, args, sin, cls, idx, known_recs=None, env
         r2 = common.kalign_cli(paths, files, args=a2, nthreads=nthreads, out=out2, stdin_data=sin, env=env, timeout=300, cpu=120)
         if r2.rc != 0 or r2.out_bytes is None:
             return None
-        try:
-            return fmt.parse_fasta(r2.out_bytes)
-        except Exception:
-            return None
+        return r2.out_bytes
 
     judge(ck, res, list(blobs) + ([sin] if sin else []), ctx, cls, format=format, known_recs=known_recs, rerun_fasta=rerun_fasta)
     shutil.rmtree(d, ignore_errors=True)
@@ -416,7 +431,7 @@ def w_options(ck, paths, n):
             if r.rc != 0 and not err.strip() and not outtxt.strip():
                 ck.violation("failure-without-message:options", "exit %s with no message at all for %s" % (r.rc, a), ctx)
             if r.rc == 0 and has_out:
-                o = a[a.index("-o") + 1]
+                o = a[len(a) - 1 - a[::-1].index("-o") + 1]  # the last -o wins
                 if o == "/dev/full" or o.endswith("nodir/x.fa") or o.endswith("adir"):
                     infoonly = any(x in a for x in ("-h", "--version", "--showw"))
                     if not infoonly:
